@@ -192,6 +192,8 @@ func (dsc *dataStoreCommand) setKey(keyName, str string, options bitflags, expir
 				return
 			}
 			argBytes = append(strBytes, argBytes...)
+			// appending modifies the value in place: the deadline stays
+			expiration = time.Time(oldSk.expiresAt)
 		}
 
 	} else {
